@@ -36,7 +36,7 @@ Proof.
   - (* n/d *)
     destruct (Z.eqb_spec d 1); [lia|].
     rewrite <- !app_assoc. cbn [app].
-    rewrite integer_roundtrip; auto.
+    rewrite integer_roundtrip; [|assumption|reflexivity].
     cbn [after good eofb failb negb andb orb sget Model.rest].
     rewrite blank_loop_nonblank by lia. cbn [failb]. change (47 =? 47) with true. cbn iota.
     change (mkS (Integer_out d ++ rs) false false) with (from_chars ([] ++ Integer_out d ++ rs)).
